@@ -63,7 +63,7 @@ pub fn specs() -> Vec<Spec> {
 	]
 }
 
-fn run_spec(spec: &Spec, c: &ValStream, st: &mut Stats) -> CaseResult {
+pub fn run_spec(spec: &Spec, c: &ValStream, st: &mut Stats) -> CaseResult {
 	let n = c.n as usize;
 	let init = gen::vt(c.init);
 	let xs: Vec<f64> = c.xs.iter().map(|&x| gen::vt(x)).collect();
@@ -138,7 +138,7 @@ fn tsi_strategy(max_len: usize, tier: Tier) -> impl Strategy<Value = TsiCase> {
 	pairs.prop_flat_map(move |(s, l)| (Just(s), Just(l), gen::val_stream_n(l.min(40), max_len, Domain::Any, true))).prop_map(|(short, long, s)| TsiCase { short, long, s })
 }
 
-fn run_tsi(c: &TsiCase, st: &mut Stats) -> CaseResult {
+pub fn run_tsi(c: &TsiCase, st: &mut Stats) -> CaseResult {
 	let init = gen::vt(c.s.init);
 	let xs: Vec<f64> = c.s.xs.iter().map(|&x| gen::vt(x)).collect();
 	let mut m = TSI::new(c.short as PeriodType, c.long as PeriodType, &(init as ValueType)).map_err(|e| Failure::new("C03:TSI:ctor", format!("{e:?}")))?;
@@ -186,7 +186,7 @@ fn run_tsi(c: &TsiCase, st: &mut Stats) -> CaseResult {
 // ---------------------------------------------------------------------------------------
 // Vidya
 
-fn run_vidya(c: &ValStream, st: &mut Stats) -> CaseResult {
+pub fn run_vidya(c: &ValStream, st: &mut Stats) -> CaseResult {
 	let n = c.n as usize;
 	let init = gen::vt(c.init);
 	let xs: Vec<f64> = c.xs.iter().map(|&x| gen::vt(x)).collect();
